@@ -64,19 +64,26 @@ structure NormIn (α : Type) where
   /-- `pp != PeriodicPoling::Off` -/
   ppOn : Bool
 
-/-- `normalization::common_norm` with `n_s`, `n_i` the indices at `ω_s`, `ω_i` -/
-def commonNorm (N : NormIn α) (ωs ωi ns ni : α) : α :=
+/-- the constant factor of `common_norm`: `TWO_PI.powi(3) * constants` -/
+def normConst (ppOn : Bool) : α :=
   let degeneracy : α := (1.0 : α)
-  let ppc : α := if N.ppOn then (2.0 : α) / Transc.pi else (1.0 : α)
-  let sigma := fwhmToSpectralWidth (freqToWavelength N.omegaP) N.bandwidth
-  let wpSq := N.wpx * N.wpy
-  let nn := ns * ni
-  let lomega := ωs * ωi / (nn * nn)
+  let ppc : α := if ppOn then (2.0 : α) / Transc.pi else (1.0 : α)
   let dp := degeneracy * ppc
   let constants := (dp * dp)
     / ((4.0 : α) * powi5 Transc.pi * Transc.sqrt twoPi * cLight * cLight * cLight * eps0)
+  powi3 twoPi * constants
+
+/-- the pump's spectral width `σ` used by `common_norm` -/
+def NormIn.sigma (N : NormIn α) : α :=
+  fwhmToSpectralWidth (freqToWavelength N.omegaP) N.bandwidth
+
+/-- `normalization::common_norm` with `n_s`, `n_i` the indices at `ω_s`, `ω_i` -/
+def commonNorm (N : NormIn α) (ωs ωi ns ni : α) : α :=
+  let wpSq := N.wpx * N.wpy
+  let nn := ns * ni
+  let lomega := ωs * ωi / (nn * nn)
   let dl := N.deff * N.L
-  powi3 twoPi * constants * wpSq * (dl * dl) * lomega * N.power / sigma
+  normConst N.ppOn * wpSq * (dl * dl) * lomega * N.power / N.sigma
 
 /-- `math::sec` -/
 def sec (x : α) : α := (1.0 : α) / Transc.cos x
